@@ -328,4 +328,54 @@ def sortedPalette (i : Img) : Option Img :=
       some ⟨{ i.ihdr with ct := .indexed (final.map (·.2)) }, i.data.map mapByte⟩
   | _ => none
 
+/-! ## the two steps shared by the co-occurrence palette sorters (`sorted_palette_mzeng`, `_battiato`) -/
+
+/-- `most_popular_color`: (index, count) of the most frequent value among the first `numColors`
+    (the last one on ties, as `max_by_key` returns); `(0, 0)` when there is none -/
+def mostPopularColor (numColors : Nat) (data : Bytes) : Nat × Nat :=
+  let counts : List Nat := (List.range 256).map fun k => data.count (UInt8.ofNat k)
+  ((counts.take numColors).zipIdx.foldl
+    (fun (acc : Option (Nat × Nat)) (p : Nat × Nat) =>
+      match acc with
+      | none => some (p.2, p.1)
+      | some b => if p.1 ≥ b.2 then some (p.2, p.1) else acc) none).getD (0, 0)
+
+/-- `apply_most_popular_color`: bring the most popular colour (if it covers at least 15 % of the
+    pixels) to the front by rotating - after reversing when it sits in the second half.
+    `none` = the `unwrap` on `position` panics (the colour is not in the remapping). -/
+def applyMostPopularColor (data : Bytes) (remapping : List Nat) : Option (List Nat) :=
+  let mp := mostPopularColor remapping.length data
+  if mp.2 < data.length * 3 / 20 then some remapping else
+  match remapping.idxOf? mp.1 with
+  | none => none
+  | some firstIdx =>
+    if firstIdx ≥ remapping.length / 2 then some (remapping.reverse.rotateRight (firstIdx + 1))
+    else some (remapping.rotateLeft firstIdx)
+
+/-- the `byte_map` loop of `apply_palette_reorder`: `byte_map[v] = i as u8` for every `(i, v)` of the
+    remapping in order (`none` = index out of the 256-entry table) -/
+def reorderByteMap (remapping : List Nat) : Option (List Nat) :=
+  remapping.zipIdx.foldlM (fun (m : List Nat) (p : Nat × Nat) =>
+    if p.1 < 256 then some (m.set p.1 (p.2 % 256)) else none) (List.replicate 256 0)
+
+/-- `apply_palette_reorder`: outer `none` = panic (an entry beyond the palette or the table),
+    inner `none` = "nothing changed" -/
+def applyPaletteReorder (i : Img) (remapping : List Nat) : Option (Option Img) :=
+  match i.ihdr.ct with
+  | .indexed palette =>
+    if remapping.zipIdx.all (fun (v, k) => v = k) then some none else
+    if !(remapping.all fun v => decide (v < palette.length)) then none else
+    match reorderByteMap remapping with
+    | some byteMap =>
+      some (some ⟨{ i.ihdr with ct := .indexed (remapping.map fun v => palette.getD v ⟨0, 0, 0, 255⟩) },
+        i.data.map fun b => UInt8.ofNat (byteMap.getD b.toNat 0)⟩)
+    | none => none
+  | _ => some none
+
+/-- a co-occurrence sorter after its order has been computed -/
+def reorderWith (i : Img) (order : List Nat) : Option (Option Img) :=
+  match applyMostPopularColor i.data order with
+  | none => none
+  | some r => applyPaletteReorder i r
+
 end OxiModel
